@@ -63,6 +63,8 @@ class FunctionReport:
         self.wall_s = 0.0
         self.canary = None        # True if the canary was refuted (good)
         self.models_used = set()
+        self.bounded_out = 0
+        self.bounds = set()
 
 
 def load_program():
@@ -111,12 +113,14 @@ class Verifier:
         self.spec_env_raw = load_spec_program(self.P)
         self.ob_timeout_ms = 10000 if tier == 'quick' else 60000
         self.max_paths = 20000
+        self.current = None
 
     # ------------------------------------------------------------------
     def new_interp(self, forced):
         I = Interp(self.P, PathCtl(forced))
         I.layouts = spec.LAYOUTS
         I.contracts = spec.REGISTRY
+        I.modular = set(spec.MODULAR) - {self.current}
         env = {}
         for k, v in self.spec_env_raw.items():
             env[k] = v
@@ -148,6 +152,7 @@ class Verifier:
     # ------------------------------------------------------------------
     def verify(self, qualname, only_props=None):
         C = spec.REGISTRY[qualname]
+        self.current = qualname
         rep = FunctionReport(qualname)
         t0 = time.time()
         fi = self.P.functions.get(qualname)
@@ -167,6 +172,8 @@ class Verifier:
                 self.run_path(I, fi, C, rep, first)
             except Abort:
                 rep.aborted += 1
+            except BoundedOut:
+                rep.bounded_out += 1
             except Unsupported as u:
                 msg = 'unsupported: %s' % u
                 if msg not in rep.undecided:
@@ -176,6 +183,8 @@ class Verifier:
             first = False
             work.extend(I.ctl.new_prefixes)
             rep.inlined |= I.inlined
+            rep.bounds |= I.bounds_used | I.bounds_hit
+            rep.modular_calls |= I.modular_used
         rep.wall_s = time.time() - t0
         from . import builtins_model
         rep.models_used = set(builtins_model.USED_MODELS)
@@ -249,7 +258,7 @@ class Verifier:
                 # unchanged applies to every exit
                 goal = self._eq_old(I, node)
                 add('modifies', ex, goal, None, '%s == old(%s)' % (ex, ex))
-            if C.canary:
+            if C.canary and not rep.canary:
                 ob = Obligation(fi.qualname, 'canary', 'canary', path, props, C.canary)
                 self.discharge(I, ob, I.spec_bool(ast.parse(C.canary, mode='eval').body), inputs)
                 if ob.result == 'refuted':
@@ -353,7 +362,9 @@ class Verifier:
             s.push()
             for q in I.deferred:
                 s.add(q)
+            s.set('timeout', min(self.ob_timeout_ms, 3000))
             r2 = s.check()
+            s.set('timeout', self.ob_timeout_ms)
             s.pop()
             if r2 == z3.unsat:
                 r = z3.unsat
